@@ -103,7 +103,29 @@ def source_tie(pid):
     for n, why in failing.items():
         if n == "*" or n in seen: broken.append(("source-tie", why))
     devs = set(re.match(r"UNTRANSLATABLE T12: (\w+):", d).group(1) for d in rep.get("deviations", []) if re.match(r"UNTRANSLATABLE T12: (\w+):", d))
-    info = dict(functions=len(seen), tied=len([n for n in seen if expected.get(n) in ("tied", "manual") and n not in failing and n not in devs and "*" not in failing]),
+    # the property's theorems restated about the source translation (gen/<pid>_src.v)
+    src_names, src_closed = rep.get("src_theorems", {}).get(pid, []), 0
+    srcf = os.path.join("gen", pid + "_src.v")
+    if src_names and os.path.exists(os.path.join(COQ, srcf)) and not failing:
+        ok5, _ = coq_make([os.path.join("Properties", pid + ".vo")])
+        # (cached: the key covers the generated file and the compiled files it is checked against)
+        key = hashlib.sha1((open(os.path.join(COQ, srcf)).read() + "|%r|%r" % (
+            os.path.getmtime(os.path.join(COQ, "gen", "SrcTie.vo")), os.path.getmtime(os.path.join(COQ, "Properties", pid + ".vo")))).encode()).hexdigest()
+        cfile = os.path.join(CACHE, "srcthm-%s.json" % pid)
+        cached = json.load(open(cfile)) if os.path.exists(cfile) else {}
+        if cached.get("key") == key and cached.get("rc") == 0: rc5, out5 = 0, cached["out"]
+        else:
+            rc5, out5 = sh(["coqc", "-q", "-Q", ".", "TlsModel", srcf], cwd=COQ, timeout=1800)
+            os.makedirs(CACHE, exist_ok=True)
+            json.dump(dict(key=key, rc=rc5, out=out5[-20000:]), open(cfile, "w"))
+        if rc5 != 0:
+            m = re.search(r'File "([^"]+)", line (\d+)[^\n]*\n((?:.*\n){0,8})', out5)
+            broken.append(("source-tie", "the source-level theorems %s no longer check: %s" % (srcf, (m.group(0) if m else out5[-500:]).strip())))
+        else:
+            src_closed = len(re.findall(r"(?m)^Closed under the global context", out5))
+            if src_closed != len(src_names) or "Axioms:" in out5:
+                broken.append(("source-tie", "source-level theorems of %s depend on axioms: %s" % (srcf, out5[-400:])))
+    info = dict(src_theorems=len(src_names), src_theorems_closed=src_closed, functions=len(seen), tied=len([n for n in seen if expected.get(n) in ("tied", "manual") and n not in failing and n not in devs and "*" not in failing]),
                 outside_subset=sorted(n for n in seen if expected.get(n) == "outside"))
     return broken, info
 
